@@ -19,7 +19,7 @@ echo "patch_applies=yes" >> "$OUT"
 if git diff --name-only | grep -q '\.h$'; then find src -name '*.lo' -delete; find src -name '*.o' -delete; fi
 (make -j8 2>&1 | tail -3) > "$WT/build.log"; 
 if [ -f src/.libs/libmeddly.a ]; then echo "builds=yes" >> "$OUT"; else echo "builds=no" >> "$OUT"; fi
-(make -k -j8 check 2>&1 | grep -E "^# (TOTAL|PASS|FAIL|ERROR)" | tr '\n' ' ') >> "$OUT"; echo >> "$OUT"
+(make -k -j8 check 2>&1 | grep -E "^# (TOTAL|PASS|FAIL|ERROR)|^FAIL:" | tr "\n" " ") >> "$OUT"; echo >> "$OUT"
 g++ -std=gnu++17 -I"$WT/src" -I"$WT" "$WT/demo_local.cc" "$WT/src/.libs/libmeddly.a" -lgmp -o "$WT/demo_bin2" 2>>"$OUT" || echo "demo build failed (changed)" >> "$OUT"
 timeout 300 "$WT/demo_bin2" > "$WT/demo_changed.out" 2>&1; echo "demo_on_changed_exit=$?" >> "$OUT"
 tail -3 "$WT/demo_changed.out" | cut -c1-200 >> "$OUT"
